@@ -377,28 +377,25 @@ pub fn check_asks(log: &[ReadEv], data: &[u8], start: usize) -> Option<String> {
         crate::refm::VarDec::Ok(v, n, _) => (Some(1 + n), v as usize),
         _ => (None, 0),
     };
+    // The property forbids asking for bytes beyond the end of the current frame. The frame end is
+    // known (to the monitor) whenever the stream holds a complete length field; when the stream ends
+    // inside the fixed header there is no frame to overrun and nothing is judged.
+    let end = match hdr {
+        Some(h) => h + remlen,
+        None => return None,
+    };
     for ev in log {
         if ev.pos < start {
             continue;
         }
         let off = ev.pos - start;
-        let in_header = match hdr {
-            Some(h) => off < h,
-            None => true,
-        };
-        if in_header {
-            if ev.cap != 1 {
-                return Some(format!("header read at offset {} asked for {} bytes", off, ev.cap));
-            }
-        } else {
-            let end = hdr.unwrap() + remlen;
-            if off + ev.cap > end {
-                return Some(format!("body read at offset {} asked for {} bytes, frame ends at {}", off, ev.cap, end));
-            }
-            if let ROut::Data(n) = ev.out {
-                if n > ev.cap {
-                    return Some("transport delivered more than asked (harness bug)".into());
-                }
+        if off + ev.cap > end && ev.cap > 0 {
+            let phase = if off < hdr.unwrap() { "header" } else { "body" };
+            return Some(format!("{} read at offset {} asked for {} bytes, frame ends at {}", phase, off, ev.cap, end));
+        }
+        if let ROut::Data(n) = ev.out {
+            if n > ev.cap {
+                return Some("transport delivered more than asked (harness bug)".into());
             }
         }
     }
